@@ -55,9 +55,30 @@ end
 -- This function loads new a new module, whether built-in or defined in the
 -- data file, and returns its initialization function.  This caches the
 -- initialization function.
+-- Names of modules that are kept loaded across invocations and pages (filled
+-- in below)
+local retained_modules
+
+-- True for the built-in library files among the retained modules (mw_text,
+-- mw_title, ustring:ustring, ...; modules stored as pages have the Module
+-- namespace prefix).
+local function is_retained_library(modname)
+    local prefix = NAMESPACE_DATA.Module.name .. ":"
+    return retained_modules[modname] == true
+        and string.sub(modname, 1, #prefix) ~= prefix
+end
+
 function new_loader(modname, mod_env)
     if mod_env == nil then
-        mod_env = _python_top_env() or env
+        if is_retained_library(modname) then
+            -- The library outlives the invocation that happens to use it
+            -- first: its functions must not run in that invocation's private
+            -- environment, whose globals and library copies the module may
+            -- have changed.
+            mod_env = env
+        else
+            mod_env = _python_top_env() or env
+        end
     end
     -- print("lua new_loader: " .. modname)
     -- If the module is in the normal cache (loaded by require), call its
@@ -412,7 +433,7 @@ end
 local new_package = { loaders = { nil, new_loader },
                       loaded = {} }
 
-local retained_modules = {
+retained_modules = {
     coroutine = true,
     math = true,
     io = true,
